@@ -53,7 +53,7 @@ Definition match_value (cmpf : pv -> pv -> outcome bool) (l r : pv) : outcome va
   | Done true => Done (success l r)
   | Done false => Done (failure l r)
   | Err ENotComparable => Done (VComparison (CRNotComparable l r))
-  | Err _ => Panic P_match_value_unreachable
+  | Err _ => Done (VComparison (CRNotComparable l r))   (* fix in /repo: any other comparator error, e.g. a regex run-time failure *)
   | Panic s => Panic s
   | OutOfFuel => OutOfFuel
   | Unknown => Unknown
